@@ -4,8 +4,8 @@ package main
 
 // Thin in-package driver for the CSV import monitor (C19). Injected at build
 // time with `go test -overlay`; not a file of the repository. For each case it
-// creates a fresh database and table, runs the real colDataTypes and
-// doBatchInsert on the given CSV bytes, drains both channels in arrival order
+// creates a fresh database and table, runs the real makeConfig (flags ->
+// configuration) and doBatchInsert on the given CSV bytes, drains both channels in arrival order
 // and reads the table back. It judges nothing.
 
 import (
@@ -135,15 +135,21 @@ func verifRun(i int, cs verifCase) (o verifResult) {
 		o.Err = "create table: " + err.Error()
 		return
 	}
-	types, err := colDataTypes(rm, "t", cs.DstCols)
+	// the configuration is built by the tool's own makeConfig from its
+	// command line flags, exactly as main does
+	var src []string
+	for _, i := range cs.SrcCols {
+		src = append(src, fmt.Sprint(i))
+	}
+	*cfgDb, *cfgDestCols, *cfgSep, *cfgSrcCols, *cfgTable = db, strings.Join(cs.DstCols, ","), cs.Sep, strings.Join(src, ","), "t"
+	cfg, err := makeConfig(rm)
 	if err != nil {
-		o.Err = "colDataTypes: " + err.Error()
+		o.Err = "makeConfig: " + err.Error()
 		return
 	}
-	for _, t := range types {
+	for _, t := range cfg.colTypes {
 		o.Types = append(o.Types, int(t))
 	}
-	cfg := importCfg{colTypes: types, db: db, dstCols: cs.DstCols, separator: []rune(cs.Sep)[0], srcCols: cs.SrcCols, table: "t"}
 	raw, _ := hex.DecodeString(cs.CSVHex)
 	chOk, chErr := doBatchInsert(rm, cfg, bytes.NewReader(raw))
 	var ev strings.Builder
